@@ -1,6 +1,8 @@
 // C32 through the two call sites named in the statement, on a real chain object without a network:
-//   chain.Chain.VerifyTickets     (tickets of miners k0,k1 over one block hash)
-//   miner.Chain.ValidateTransactions (transactions of clients k0,k1, two payloads)
+//
+//	chain.Chain.VerifyTickets     (tickets of miners k0,k1 over one block hash)
+//	miner.Chain.ValidateTransactions (transactions of clients k0,k1, two payloads)
+//
 // Same transformation families and the same oracle as the API part.
 package main
 
